@@ -115,7 +115,7 @@ func cmdCheck(args []string) {
 	if err := json.Unmarshal(data, &ps); err != nil {
 		machineryError("props file: %v", err)
 	}
-	timeout := 15
+	timeout := 40
 	if ps.QuickTimeoutS > 0 {
 		timeout = ps.QuickTimeoutS
 	}
@@ -243,6 +243,9 @@ func cmdCheck(args []string) {
 		}
 		if o.Verdict == "disagree" {
 			machineryError("solvers disagree on %s: %s", o.Name, o.Output)
+		}
+		if o.Verdict == "error" {
+			machineryError("solver rejected the query for %s: %s", o.Name, firstLines(o.Output, 4))
 		}
 		if reason, ok := ps.Assumed[o.Name]; ok {
 			assumedHit = append(assumedHit, o.Name+": "+reason)
